@@ -86,6 +86,11 @@ func ParseBlock(a map[string]string) (*blockchain.Block, error) {
 	if err != nil {
 		return nil, err
 	}
+	if a["nc"] == "1" {
+		// the peer sends the header NON-canonically encoded (a spare byte after the last field, which the lenient
+		// header decoder accepts): the block is the same block - same ID, same stored bytes
+		hb = append(append([]byte{}, hb...), 0x00)
+	}
 	header, err := blockchain.NewBlockHeader(hb)
 	if err != nil {
 		return nil, err
@@ -813,6 +818,11 @@ func (r *Runner) step(op string) string {
 			return "bad-block"
 		}
 		r.see(b)
+		if a["nc"] == "1" {
+			if hb, err := unhexSafe(a["hb"]); err == nil {
+				n.NextWireHeader = append(append([]byte{}, hb...), 0x00)
+			}
+		}
 		if n.Tip() == nil {
 			// Executer.process / processValidated dereference Chain.LastBlock()
 			return r.state(map[string]string{"pv": "panic", "proc": "panic fc=none"}[w[0]], nil)
